@@ -25,6 +25,17 @@ CLAIMS = {
                      "one unparsable node and keeps every token.",
                 note="Induction hypothesis: child grammars return results satisfying invariant I. Termination/intended parse of the "
                      "composed recursion over a real dialect, and Parser.parse end-to-end, are outside. check_still_complete is not relied on."),
+    "C03": dict(design_ref="§3 C03", technique=SYM + "; plus z3 Fixedpoint (Datalog) indent-balance relation over every dialect's live grammar graph",
+                text="(1) Real BaseSegment.__init__/from_child_markers/validate_non_code_ends over children with arbitrary slices: parent = "
+                     "[min start, max stop) in source and templated space; a node is rejected iff it begins/ends with non-code. (2) For "
+                     "EVERY bundled dialect and every tested assignment of the indentation config flags, z3's Datalog engine decides the "
+                     "relation Bal(node, net, min-prefix) over the complete grammar graph: every complete parse has net balance 0 and no "
+                     "negative prefix (unbounded input length; saturating at +-3). (3) The rule model used in (2) is checked on the real "
+                     "Sequence.match / Bracketed.match with stub children carrying loose and wrapped inserts (sum of inserts = rule "
+                     "formula, incl. Bracketed dropping its content's loose metas). A Datalog candidate is replayed by parsing the "
+                     "dialect's own fixtures that mention the culprit segment's keywords with the real parser.",
+                note="Trusted: the rule model for AnyNumberOf/Delimited (union/repetition) and the graph walker; greedy partial matches "
+                     "and reindent.py's consumer are outside. Template-block indents are covered by C01's balance oracle."),
     "C10": dict(design_ref="§3 C10/C11/C30", technique=SYM,
                 text="Bounded model checking of the real patch pipeline (generate_source_patches filter, merge_source_patches, "
                      "_slice_source_file_using_patches, _build_up_fixed_source_string) for ALL source lengths, slice boundaries, "
@@ -75,6 +86,6 @@ NOT_APPLICABLE = {
     "C16": "oracle is SQLite executing the query before/after; no solver model of SQL semantics is within reach",
     "C17": "fixpoint of the whole rule set over arbitrary SQL; not encodable",
 }
-for _p in ["C03", "C04", "C05", "C06", "C07", "C08", "C09", "C15", "C18", "C19", "C20", "C21", "C22",
+for _p in ["C04", "C05", "C06", "C07", "C08", "C09", "C15", "C18", "C19", "C20", "C21", "C22",
            "C24", "C25", "C26", "C27", "C28", "C32", "C34"]:
     NOT_APPLICABLE.setdefault(_p, "check not built yet (planned, see DESIGN.md §3); not claimed until its harness is committed")
